@@ -45,7 +45,7 @@ class Bail(Exception):
 def is_const_lit(n):
     if isinstance(n, ast.Constant):
         return True
-    if isinstance(n, ast.UnaryOp) and isinstance(n.op, ast.USub) and isinstance(n.operand, ast.Constant):
+    if isinstance(n, ast.UnaryOp) and isinstance(n.op, (ast.USub, ast.UAdd)) and isinstance(n.operand, ast.Constant):
         return True
     if isinstance(n, ast.Tuple):
         return all(is_const_lit(e) for e in n.elts)
@@ -361,6 +361,208 @@ def env_copy(env):
     return out
 
 
+class NotConst(Exception):
+    pass
+
+
+def const_eval(n, consts, bound=None):
+    """the value of an expression made of constants only: literals, known constant names, tuples with *spread, + of tuples / strings,
+    f-strings, comprehensions over constant sequences, slices with constant bounds, tuple(..) / reversed(..) / sorted(..)"""
+    bound = bound or {}
+    if isinstance(n, ast.Constant):
+        return n.value
+    if isinstance(n, ast.UnaryOp) and isinstance(n.op, (ast.USub, ast.UAdd)):
+        v = const_eval(n.operand, consts, bound)
+        if isinstance(v, (int, float)) and not isinstance(v, bool):
+            return -v if isinstance(n.op, ast.USub) else v
+        raise NotConst
+    if isinstance(n, ast.Name):
+        if n.id in bound:
+            return bound[n.id]
+        if n.id in consts:
+            return const_eval(consts[n.id], {}, {})
+        raise NotConst
+    if isinstance(n, (ast.Tuple, ast.List)):
+        out = []
+        for e in n.elts:
+            if isinstance(e, ast.Starred):
+                v = const_eval(e.value, consts, bound)
+                if not isinstance(v, tuple):
+                    raise NotConst
+                out.extend(v)
+            else:
+                out.append(const_eval(e, consts, bound))
+        return tuple(out)
+    if isinstance(n, ast.BinOp) and isinstance(n.op, ast.Add):
+        a, b = const_eval(n.left, consts, bound), const_eval(n.right, consts, bound)
+        if (isinstance(a, tuple) and isinstance(b, tuple)) or (isinstance(a, str) and isinstance(b, str)):
+            return a + b
+        raise NotConst
+    if isinstance(n, ast.JoinedStr):
+        parts = []
+        for v in n.values:
+            if isinstance(v, ast.Constant):
+                parts.append(str(v.value))
+            elif isinstance(v, ast.FormattedValue) and v.conversion == -1 and v.format_spec is None:
+                x = const_eval(v.value, consts, bound)
+                if not isinstance(x, (str, int)) or isinstance(x, bool):
+                    raise NotConst
+                parts.append(str(x))
+            else:
+                raise NotConst
+        return "".join(parts)
+    if isinstance(n, (ast.GeneratorExp, ast.ListComp)) and len(n.generators) == 1:
+        g = n.generators[0]
+        it = const_eval(g.iter, consts, bound)
+        if not isinstance(it, tuple) or g.is_async or not isinstance(g.target, ast.Name) or len(it) > 64:
+            raise NotConst
+        out = []
+        for x in it:
+            b2 = dict(bound, **{g.target.id: x})
+            if all(const_eval(c, consts, b2) for c in g.ifs):
+                out.append(const_eval(n.elt, consts, b2))
+        return tuple(out)
+    if isinstance(n, ast.Compare) and len(n.ops) == 1 and isinstance(n.ops[0], (ast.In, ast.NotIn, ast.Eq, ast.NotEq)):
+        a, b = const_eval(n.left, consts, bound), const_eval(n.comparators[0], consts, bound)
+        try:
+            r = {ast.In: lambda: a in b, ast.NotIn: lambda: a not in b, ast.Eq: lambda: a == b, ast.NotEq: lambda: a != b}[type(n.ops[0])]()
+        except TypeError:
+            raise NotConst
+        return r
+    if isinstance(n, ast.Subscript):
+        v = const_eval(n.value, consts, bound)
+        if not isinstance(v, (tuple, str)):
+            raise NotConst
+        if isinstance(n.slice, ast.Slice):
+            lo, hi, st = (None if x is None else const_eval(x, consts, bound) for x in (n.slice.lower, n.slice.upper, n.slice.step))
+            if any(x is not None and (not isinstance(x, int) or isinstance(x, bool)) for x in (lo, hi, st)):
+                raise NotConst
+            return v[lo:hi:st]
+        i = const_eval(n.slice, consts, bound)
+        if isinstance(i, int) and not isinstance(i, bool) and -len(v) <= i < len(v):
+            return v[i]
+        raise NotConst
+    if isinstance(n, ast.Call) and isinstance(n.func, ast.Name) and n.func.id in ("tuple", "reversed", "sorted", "list") and len(n.args) == 1 and not n.keywords:
+        v = const_eval(n.args[0], consts, bound)
+        if not isinstance(v, tuple):
+            raise NotConst
+        try:
+            return {"tuple": tuple, "list": tuple, "reversed": lambda x: tuple(reversed(x)), "sorted": lambda x: tuple(sorted(x))}[n.func.id](v)
+        except TypeError:
+            raise NotConst
+    raise NotConst
+
+
+def lit_of(v, at=None):
+    """the display of a constant value (nested tuples of str / int / float / bool / None)"""
+    if isinstance(v, tuple):
+        t = ast.Tuple(elts=[lit_of(x, at) for x in v], ctx=ast.Load())
+        return ast.copy_location(t, at) if at is not None else t
+    if isinstance(v, (int, float)) and not isinstance(v, bool) and v < 0:
+        u = ast.UnaryOp(op=ast.USub(), operand=ast.Constant(value=-v))
+        return ast.fix_missing_locations(ast.copy_location(u, at)) if at is not None else u
+    c = ast.Constant(value=v)
+    return ast.copy_location(c, at) if at is not None else c
+
+
+RO_DICT_METHODS = {"get", "items", "keys", "values", "copy"}
+RO_DICT_CALLS = {"dict", "len", "list", "sorted", "tuple", "set", "frozenset", "enumerate", "iter", "reversed", "zip"}
+
+
+def const_dict_lit(val):
+    """{"k": <literal>, ..} / dict(k=<literal>, ..) with string keys and constant values, as a Dict display; else None"""
+    if isinstance(val, ast.Call) and isinstance(val.func, ast.Name) and val.func.id == "dict" and not val.args and val.keywords \
+            and all(k.arg is not None and is_const_lit(k.value) for k in val.keywords):
+        d = ast.Dict(keys=[ast.copy_location(ast.Constant(value=k.arg), val) for k in val.keywords], values=[k.value for k in val.keywords])
+        return ast.copy_location(d, val)
+    if isinstance(val, ast.Dict) and val.keys and all(k is not None and const_key(k) for k in val.keys) and all(is_const_lit(v) or closed_lambda(v) for v in val.values):
+        return val
+    return None
+
+
+def closed_lambda(v):
+    """a lambda with plain positional parameters whose body reads its parameters, constants and dotted library names (np.x) only"""
+    if not isinstance(v, ast.Lambda):
+        return False
+    a = v.args
+    if a.vararg or a.kwarg or a.kwonlyargs or a.defaults or a.posonlyargs:
+        return False
+    ps = {x.arg for x in a.args}
+    for n in ast.walk(v.body):
+        if isinstance(n, (ast.Lambda, ast.NamedExpr, ast.Yield, ast.YieldFrom, ast.Await, ast.ListComp, ast.SetComp, ast.DictComp, ast.GeneratorExp)):
+            return False
+        if isinstance(n, ast.Name) and n.id not in ps and n.id not in ("np", "numpy", "signal", "scipy", "math", "True", "False", "None", "int", "float", "len", "abs", "min", "max"):
+            return False
+    return True
+
+
+def read_only_refs(tree, is_ref, _depth=0):
+    """every node r of tree with is_ref(r) stands where the dictionary it names is only read: r[k], r.get/items/keys/values/copy(..),
+    k in r, iteration, dict(r) / len(r) / sorted(r) .., **r, other.update(r), helper(r) where the helper only reads that parameter"""
+    funcs = {n.name: n for n in getattr(tree, "body", []) if isinstance(n, ast.FunctionDef)}
+    parent = {}
+    for n in ast.walk(tree):
+        for c in ast.iter_child_nodes(n):
+            parent[id(c)] = n
+    for r in ast.walk(tree):
+        if not is_ref(r):
+            continue
+        p_ = parent.get(id(r))
+        g_ = parent.get(id(p_)) if p_ is not None else None
+        if isinstance(p_, ast.Subscript) and p_.value is r and isinstance(p_.ctx, ast.Load):
+            continue
+        if isinstance(p_, ast.Attribute) and p_.value is r and p_.attr in RO_DICT_METHODS and isinstance(g_, ast.Call) and g_.func is p_:
+            continue
+        if isinstance(p_, ast.Compare) and any(c is r for c in p_.comparators) and all(isinstance(o, (ast.In, ast.NotIn)) for o in p_.ops):
+            continue
+        if isinstance(p_, (ast.For, ast.comprehension)) and p_.iter is r:
+            continue
+        if isinstance(p_, ast.Call) and isinstance(p_.func, ast.Name) and p_.func.id in RO_DICT_CALLS and any(a is r for a in p_.args):
+            continue
+        if isinstance(p_, ast.keyword) and p_.arg is None and p_.value is r:
+            continue
+        if isinstance(p_, ast.Dict) and any(k is None and v is r for k, v in zip(p_.keys, p_.values)):
+            continue
+        if isinstance(p_, ast.Call) and isinstance(p_.func, ast.Attribute) and p_.func.attr == "update" and any(a is r for a in p_.args) and p_.func.value is not r:
+            continue
+        if isinstance(p_, ast.Call) and isinstance(p_.func, ast.Name) and p_.func.id in funcs and _depth < 2 and not any(isinstance(a, ast.Starred) for a in p_.args):
+            # handed to a function of the same module: fine when that parameter is only read there
+            fn = funcs[p_.func.id]
+            a_ = fn.args
+            pos = [x.arg for x in a_.posonlyargs + a_.args]
+            i = next((k for k, a in enumerate(p_.args) if a is r), None)
+            pname, spread = None, False
+            if i is not None and i < len(pos):
+                pname = pos[i]
+            elif i is not None and a_.vararg is not None:
+                pname, spread = a_.vararg.arg, True
+            if pname is not None and _param_read_only(fn, pname, spread, _depth):
+                continue
+        return False
+    return True
+
+
+def _param_read_only(fn, pname, spread, depth):
+    """the dictionary handed in as parameter pname (or as one of *pname) is only read in fn"""
+    if any(isinstance(n, ast.Name) and n.id == pname and isinstance(n.ctx, (ast.Store, ast.Del)) for n in ast.walk(fn)):
+        return False
+    if not spread:
+        return read_only_refs(fn, lambda r: isinstance(r, ast.Name) and r.id == pname and isinstance(r.ctx, ast.Load), depth + 1)
+    # *pname: every use is `for x in pname` with x only read
+    for n in ast.walk(fn):
+        if isinstance(n, ast.Name) and n.id == pname and isinstance(n.ctx, ast.Load):
+            loops = [l for l in ast.walk(fn) if isinstance(l, (ast.For, ast.comprehension)) and l.iter is n and isinstance(l.target, ast.Name)]
+            if not loops:
+                return False
+            for l in loops:
+                v = l.target.id
+                if sum(1 for x in ast.walk(fn) if isinstance(x, ast.Name) and x.id == v and isinstance(x.ctx, (ast.Store, ast.Del))) != 1:
+                    return False
+                if not read_only_refs(fn, lambda r, v=v: isinstance(r, ast.Name) and r.id == v and isinstance(r.ctx, ast.Load), depth + 1):
+                    return False
+    return True
+
+
 # ----------------------------------------------------------------------------------------------- module tables
 class ModTab:
     def __init__(self, modname, tree):
@@ -385,6 +587,19 @@ class ModTab:
                 seen[tg] = seen.get(tg, 0) + 1
                 if is_const_lit(val) and isinstance(val, (ast.Tuple,)) or (isinstance(val, ast.Constant) and isinstance(val.value, str)):
                     self.consts[tg] = val
+                elif isinstance(val, (ast.Tuple, ast.BinOp, ast.Subscript, ast.Call)) and n in tree.body and not isinstance(n, ast.AugAssign):
+                    # a tuple of names put together from other constants: (*A, *(f"{x}_cov" for x in A), "Phi"), A + ("x",), A[:3]
+                    try:
+                        v_ = const_eval(val, self.consts)
+                        if isinstance(v_, tuple) and all(isinstance(x, (str, int, float, bool, type(None), tuple)) for x in v_):
+                            self.consts[tg] = ast.fix_missing_locations(lit_of(v_, val))
+                    except (NotConst, RecursionError):
+                        pass
+                elif const_dict_lit(val) is not None and n in tree.body:
+                    # a table that is only ever read (handing it to a function, storing into it, returning it: not a constant)
+                    if read_only_refs(tree, lambda r, tg=tg: isinstance(r, ast.Name) and r.id == tg and isinstance(r.ctx, ast.Load)):
+                        self.consts[tg] = const_dict_lit(val)
+                        self.dict_consts = getattr(self, "dict_consts", set()) | {tg}
         for n in ast.walk(tree):
             if isinstance(n, ast.Global):
                 for g in n.names:
@@ -411,6 +626,16 @@ class Desugar:
         """trees: {modname: ast.Module}; they are rewritten in place"""
         self.mods = {k: ModTab(k, t) for k, t in trees.items()}
         self.stats = {"consts": 0, "folds": 0, "unrolled": 0, "inlined": 0, "records": 0, "bailed": 0}
+        # a module-level table that another module gets hold of (import, module attribute) may be changed there: not a constant
+        for m in self.mods.values():
+            for nm in list(getattr(m, "dict_consts", ())):
+                for o in self.mods.values():
+                    if o is m:
+                        continue
+                    for n in ast.walk(o.tree):
+                        if (isinstance(n, ast.ImportFrom) and any(a.name in (nm, "*") for a in n.names) and (n.module or "").split(".")[-1] == m.name.split(".")[-1]) \
+                                or (isinstance(n, ast.Attribute) and n.attr == nm):
+                            m.consts.pop(nm, None)
         self.done = {}          # id(original FunctionDef) -> desugared FunctionDef
         self.stack = []
         # every class of the program by bare name (override test for self-calls)
@@ -488,10 +713,10 @@ class Desugar:
                     return c, n
         return None, None
 
-    def class_const(self, m, cls, attr):
+    def class_const(self, m, cls, attr, exact=False):
         """literal of a class-level constant (NAME = ("a", "b") / "text", also annotated) looked up from `cls`; None unless it is bound exactly
         once in the same-module part of the MRO, never stored through an instance / class anywhere, and not re-defined in a subclass"""
-        key = (id(cls), attr)
+        key = (id(cls), attr, exact)
         cache = self.__dict__.setdefault("_cc", {})
         if key in cache:
             return cache[key]
@@ -508,6 +733,21 @@ class Desugar:
                 ok = len(hits) == 1 and ((isinstance(v, ast.Tuple) and is_const_lit(v)) or (isinstance(v, ast.Constant) and isinstance(v.value, str)))
                 found = v if ok else None
                 owner = c
+                if len(hits) == 1 and not ok and isinstance(v, (ast.Tuple, ast.BinOp, ast.Subscript)):
+                    # put together from other tables: FDD._OPTS + ("DF2", "cm"), (*Base._FIELDS, "Xi")
+                    try:
+                        val = self._class_const_eval(m, c, v)
+                        if isinstance(val, tuple):
+                            found = ast.fix_missing_locations(lit_of(val, v))
+                    except (NotConst, RecursionError):
+                        pass
+                if len(hits) == 1 and not ok and const_dict_lit(v) is not None:
+                    # a class-level table: a constant when every `<x>.NAME` / bare NAME in the class body anywhere in the program only reads it
+                    def is_ref(r):
+                        return (isinstance(r, ast.Attribute) and r.attr == attr and isinstance(r.ctx, ast.Load)) or \
+                               (isinstance(r, ast.Name) and r.id == attr and isinstance(r.ctx, ast.Load))
+                    if all(read_only_refs(mod.tree, is_ref) for mod in self.mods.values()):
+                        found = const_dict_lit(v)
                 break
         if found is not None:
             # stored anywhere as an attribute (x.NAME = ..) or re-defined in a subclass: not a constant
@@ -515,13 +755,60 @@ class Desugar:
                 for n in ast.walk(mod.tree):
                     if isinstance(n, ast.Attribute) and n.attr == attr and isinstance(n.ctx, (ast.Store, ast.Del)):
                         found = None
-            if found is not None:
+            # (for one exact class a re-definition further down does not matter - for tables; a plain label like `method = "EFDD"` stays
+            # the attribute read it is, the rules name it that way)
+            if found is not None and (not exact or isinstance(found, ast.Constant)):
                 for c in self.all_classes:
                     if c is not owner and any((isinstance(n, ast.Assign) and any(isinstance(t, ast.Name) and t.id == attr for t in n.targets))
                                               or (isinstance(n, ast.AnnAssign) and isinstance(n.target, ast.Name) and n.target.id == attr) for n in c.body):
                         found = None
         cache[key] = found
         return found
+
+    def _class_const_eval(self, m, cls, v):
+        """value of a class-level expression over other class-level / module-level constants"""
+        consts = dict(m.consts)
+
+        class R(ast.NodeTransformer):
+            def visit_Attribute(s2, n):
+                if isinstance(n.value, ast.Name) and n.value.id in m.classes and isinstance(n.ctx, ast.Load):
+                    lit = self.class_const(m, m.classes[n.value.id], n.attr, exact=True)
+                    if lit is None:
+                        raise NotConst
+                    return copy.deepcopy(lit)
+                return s2.generic_visit(n)
+
+            def visit_Name(s2, n):
+                # a bare name in a class body: an earlier attribute of the same class
+                if isinstance(n.ctx, ast.Load) and n.id not in consts:
+                    lit = self.class_const(m, cls, n.id, exact=True)
+                    if lit is not None:
+                        return copy.deepcopy(lit)
+                return n
+        return const_eval(R().visit(copy.deepcopy(v)), consts)
+
+    def exact(self, modname, cls_node, mname):
+        """the method `mname` as an instance of exactly `cls_node` executes it: looked up through the (same-module) bases of that class,
+        with the class-level tables and the helper methods that class sees.  A new FunctionDef, or None when the method is not defined in
+        this module"""
+        m = self.mods.get(modname)
+        if m is None or os.environ.get("VERIF_NODESUGAR"):
+            return None
+        owner, fn = self.method(m, cls_node, mname)
+        if fn is None:
+            return None
+        key = ("exact", id(cls_node), mname)
+        if key in self.done:
+            return self.done[key]
+        new = copy.copy(fn)
+        try:
+            pe = FnPE(self, m, fn, cls_node, exact=True)
+            new.body = pe.run()
+            ast.fix_missing_locations(new)
+        except (Bail, RecursionError):
+            new = None
+        self.done[key] = new
+        return new
 
     def overridden_below(self, cls, mname):
         """a class anywhere in the program that derives (by bare name, transitively) from cls and defines mname"""
@@ -572,6 +859,10 @@ def plumbed_names(fn, m):
             f = n.func
             if isinstance(f, ast.Attribute) and nm(f.value) and f.attr in ("update", "items", "values", "keys", "get", "pop", "setdefault"):
                 out.add(f.value.id)
+            if isinstance(f, ast.Attribute) and f.attr == "update":
+                for a in n.args:
+                    if nm(a):
+                        out.add(a.id)           # what a record is updated with is a record
             if isinstance(f, ast.Name) and f.id in ("dict", "zip", "enumerate", "setattr", "getattr"):
                 for a in n.args:
                     if nm(a):
@@ -612,11 +903,14 @@ def plumbed_names(fn, m):
 class FnPE:
     """partial evaluation of one function body"""
 
-    def __init__(self, D, m, fn, cls):
+    def __init__(self, D, m, fn, cls, exact=False):
         self.D = D
         self.m = m
         self.fn = fn
         self.cls = cls
+        # exact: the function is looked at as executed by an instance of exactly `cls` (not of a subclass): class-level tables and
+        # helper methods are those `cls` sees, whatever subclasses re-define
+        self.exact = exact
         self.locals = bound_names(fn)
         self.generated = set()
         self.mutated = self._mutated_names(fn)
@@ -915,13 +1209,27 @@ class FnPE:
                 and not any(isinstance(t, ast.Starred) for t in s.targets[0].elts) and len(s.targets[0].elts) == len(value.elts):
             tnames = {x.id for t in s.targets[0].elts for x in ast.walk(t) if isinstance(x, ast.Name)}
             vnames = {x.id for v in value.elts for x in ast.walk(v) if isinstance(x, ast.Name)}
-            if not (tnames & vnames) and len(s.targets[0].elts) > 0 and all(isinstance(t, (ast.Name, ast.Subscript, ast.Attribute)) for t in s.targets[0].elts) \
-                    and (any(self.interesting(v, t, env) for t, v in zip(s.targets[0].elts, value.elts))
+            nested = any(isinstance(t, (ast.Tuple, ast.List)) for t in s.targets[0].elts)
+            if not (tnames & vnames) and len(s.targets[0].elts) > 0 and all(isinstance(t, (ast.Name, ast.Subscript, ast.Attribute, ast.Tuple, ast.List)) for t in s.targets[0].elts) \
+                    and (nested or any(self.interesting(v, t, env) for t, v in zip(s.targets[0].elts, value.elts))
                          or any(isinstance(t, ast.Name) and t.id in self.generated for t in s.targets[0].elts)):
                 out = list(pre)
                 for t, v in zip(s.targets[0].elts, value.elts):
                     a = ast.copy_location(ast.Assign(targets=[copy.deepcopy(t)], value=v), s)
+                    a._split_shape = isinstance(t, (ast.Tuple, ast.List))       # a nested target: its own unpacking is written out too
                     out += self.assign(a, env)
+                return out
+        # (r, n) = X.shape as a nested target / with generated names: one assignment per dimension
+        if len(s.targets) == 1 and isinstance(s.targets[0], (ast.Tuple, ast.List)) and isinstance(value, ast.Attribute) and value.attr == "shape" and is_atom(value.value) \
+                and s.targets[0].elts and all(isinstance(t, ast.Name) for t in s.targets[0].elts) and getattr(s, "_split_shape", False):
+            root = value.value
+            while isinstance(root, ast.Attribute):
+                root = root.value
+            if isinstance(root, ast.Name) and root.id not in {t.id for t in s.targets[0].elts}:
+                out = list(pre)
+                for i, t in enumerate(s.targets[0].elts):
+                    sub = ast.Subscript(value=copy.deepcopy(value), slice=const(i, s), ctx=ast.Load())
+                    out += self.assign(ast.fix_missing_locations(ast.copy_location(ast.Assign(targets=[copy.deepcopy(t)], value=sub), s)), env)
                 return out
         # a, b = zip(f(x), g(y)) with f, g returning pairs: the transposition written out  a = (f(x)[0], g(y)[0]); b = (f(x)[1], g(y)[1])
         if len(s.targets) == 1 and isinstance(s.targets[0], (ast.Tuple, ast.List)) and isinstance(value, ast.Call) and isinstance(value.func, ast.Name) \
@@ -983,7 +1291,12 @@ class FnPE:
                         items.append(v)
                         continue
                     f = self.field(nm, i)
-                    out.append(ast.copy_location(ast.Assign(targets=[name(f, ast.Store(), s)], value=v), s))
+                    a_ = ast.copy_location(ast.Assign(targets=[name(f, ast.Store(), s)], value=v), s)
+                    if (is_seq_lit(v) or is_rec_lit(v)) and f not in self.closure_used:
+                        self.locals.add(f)
+                        out += self.assign(a_, env)          # a tuple / record inside the tuple is followed as well
+                    else:
+                        out.append(a_)
                     items.append(f)
                 env[nm] = Tup(nm, items, type(value))
                 # the tuple itself stays available under its own name as well (cheap, keeps unmodelled uses valid)
@@ -991,6 +1304,9 @@ class FnPE:
                 return out
             if tracked and nm in self.generated and isinstance(value, ast.Constant) and isinstance(value.value, (str, bool, type(None))):
                 env[nm] = Con(value)
+            elif isinstance(value, ast.Constant) and isinstance(value.value, str) and nm in self.locals and nm not in self.closure_used \
+                    and self.store_count(nm) == 1 and nm not in params_of(self.fn):
+                env[nm] = Con(value)            # a name label bound once (attr = "pole_ind"): getattr / setattr with it are written out
             if isinstance(value, ast.Name) and getattr(value, "_objcopy", None) in env_before and nm in self.locals and nm not in self.closure_used:
                 env[nm] = env_before[value._objcopy]        # another name for the same copy
                 value._objcopy = None
@@ -1057,6 +1373,14 @@ class FnPE:
         out.append(ast.fix_missing_locations(ast.copy_location(ast.Assign(targets=[name(nm, ast.Store(), at)], value=keep), at)))
         self.stat("records")
         return ObjCopy(nm, base, fields)
+
+    def store_count(self, nm):
+        if not hasattr(self, "_store_counts"):
+            self._store_counts = {}
+            for n in ast.walk(self.fn):
+                if isinstance(n, ast.Name) and isinstance(n.ctx, (ast.Store, ast.Del)):
+                    self._store_counts[n.id] = self._store_counts.get(n.id, 0) + 1
+        return self._store_counts.get(nm, 0)
 
     def rebound_names(self):
         if not hasattr(self, "_rebound"):
@@ -1537,7 +1861,7 @@ class FnPE:
             elif m.value.id in self.m.classes and m.value.id not in self.locals:
                 cls = self.m.classes[m.value.id]
             if cls is not None:
-                lit = self.D.class_const(self.m, cls, m.attr)
+                lit = self.D.class_const(self.m, cls, m.attr, exact=getattr(self, "exact", False) and m.value.id in ("self", "cls"))
                 if lit is not None:
                     self.stat("consts")
                     return ast.copy_location(copy.deepcopy(lit), e)
@@ -1847,6 +2171,11 @@ class FnPE:
             kws.append(k2)
         m = copy.copy(e)
         m.func, m.args, m.keywords = func, args, kws
+        if isinstance(func, ast.Lambda) and closed_lambda(func) and not kws and not any(isinstance(a, ast.Starred) for a in args) \
+                and len(args) == len(func.args.args) and all(is_atom(a) or isinstance(a, ast.Constant) for a in args):
+            # (lambda a, b: body)(x, y) with plain arguments: body with a, b replaced
+            self.stat("folds")
+            return self.expr(subst(func.body, {p_.arg: a for p_, a in zip(func.args.args, args)}), env, pre)
         r = self.fold_call(m, env, pre)
         if r is not None:
             return r
@@ -1865,6 +2194,14 @@ class FnPE:
         nargs, kws = c.args, c.keywords
         plain = not any(isinstance(a, ast.Starred) for a in nargs) and not any(k.arg is None for k in kws)
         if isinstance(f, ast.Name) and f.id not in self.locals and plain:
+            if f.id == "sum" and len(nargs) == 2 and not kws and isinstance(nargs[1], ast.Tuple) and not nargs[1].elts and is_seq_lit(nargs[0]) and nargs[0].elts:
+                # sum([(a, b), (c, d)], ()) == (a, b, c, d)
+                parts = [self.materialise(env[x.id], x) if isinstance(x, ast.Name) and isinstance(env.get(x.id), Tup) else x for x in nargs[0].elts]
+                if all(isinstance(x, ast.Tuple) and not any(isinstance(y, ast.Starred) for y in x.elts) for x in parts):
+                    self.stat("folds")
+                    t = ast.Tuple(elts=[y for x in parts for y in x.elts], ctx=ast.Load())
+                    t._lit = True
+                    return ast.copy_location(t, c)
             if f.id == "getattr" and len(nargs) == 2 and not kws and const_key(nargs[1]) and nargs[1].value.isidentifier():
                 self.stat("folds")
                 return ast.copy_location(ast.Attribute(value=nargs[0], attr=nargs[1].value, ctx=ast.Load()), c)
@@ -1998,9 +2335,10 @@ class FnPE:
             decos = [ast.unparse(d) for d in fn.decorator_list]
             if any(d not in ("staticmethod", "classmethod") for d in decos):
                 return None
-            if isinstance(recv, ast.Name) and recv.id == "self" and self.D.overridden_below(owner if not after else cls, f.attr) and not after:
+            ex = getattr(self, "exact", False)
+            if not ex and isinstance(recv, ast.Name) and recv.id == "self" and self.D.overridden_below(owner if not after else cls, f.attr) and not after:
                 return None
-            if isinstance(recv, ast.Name) and recv.id == "self" and owner is not self.cls and self.D.overridden_below(self.cls, f.attr):
+            if not ex and isinstance(recv, ast.Name) and recv.id == "self" and owner is not self.cls and self.D.overridden_below(self.cls, f.attr):
                 return None
             kind = "static" if "staticmethod" in decos else ("classmethod" if "classmethod" in decos else "method")
             if kind == "method" and not (isinstance(recv, ast.Name) and recv.id == "self") and not after:
@@ -2088,7 +2426,8 @@ class FnPE:
             return None
         if id(fn) in self.D.stack or fn is self.fn or any(x is fn for x in getattr(self, "inline_stack", [])):
             return None
-        callee = self.D.function(self.m, fn, owner)
+        # (exact class: the helper is rewritten in place, in the context of that class - not its class-independent normal form)
+        callee = self.D.function(self.m, fn, owner) if not (getattr(self, "exact", False) and kind == "method") else fn
         plumbing = self.is_plumbing(fn, call) or self.is_plumbing(callee, call)
         if not plumbing:
             # other helpers are inlined when that needs no restructuring: one return, at the end (early returns would have to be
